@@ -191,6 +191,14 @@ func roundTripCheck(build func() Inst, pend func(key, via string), st *Stats) *V
 		} else {
 			st.Nested["reloaded_fingerprint_identical"]++
 		}
+		if d, ok := y.(interface{ drainSeq() string }); ok {
+			// "the same subsequent Pop/Dequeue sequence": element for element, ties included
+			orig := build().(interface{ drainSeq() string }).drainSeq()
+			if got := d.drainSeq(); got != orig {
+				return viol(p, "mismatch", "%s reloaded from its own ToJSON output %s (%s) is drained in the order %s, the original in the order %s", x.ContainerName(), out, via, got, orig)
+			}
+			y = mk()
+		}
 		if d, ok := y.(interface{ drain() *Viol }); ok {
 			if v := d.drain(); v != nil {
 				v.Msg = fmt.Sprintf("%s reloaded from %s (%s): %s", x.ContainerName(), out, via, v.Msg)
